@@ -12,7 +12,7 @@ CHECKS = {
          "Every output of a seeded batch of simulated runs is replayed through an exact emulation of pickletools.dis's symbolic stack check. Seeded search, not enumeration: a clean batch is evidence, not proof.", "DESIGN.md §5 C01", ""),
  "C02": ("exploration", SIM + "seeded search biased to >256 memo stores and index-perturbing mutators at rate 1.0, plus threshold runs (memo size driven to exactly 255/256/257 by a stuck source, then every next opcode with edge-valued index bytes); oracle = memo rules of the pickletools.dis emulation (R2)",
          "Seeded simulated runs, biased to long in-run histories (1000-6000 opcodes) and to offbyone/memoindex mutators at rate 1.0; each PUT/GET-family opcode is judged by R2's memo rules.", "DESIGN.md §5 C02", ""),
- "C03": ("exploration", SIM + "seeded search over entropy streams/faults and configurations; plus decision-tree enumeration to depth 2/3 by steering the real generator, a model-based state cover of the object-graph fragment, extremal-state runs; oracle = kind-tracking reference machine (R3) applying the operand rules of the statement",
+ "C03": ("exploration", SIM + "seeded search over entropy streams/faults and configurations; plus decision-tree enumeration to depth 2/3 by steering the real generator, a model-based state cover of the object-graph fragment, extremal-state runs, and an anomaly-directed exploration of the GLOBAL data table (every entry x consumer programs x next opcode; entries whose simulated-state signature deviates are explored deeper); oracle = kind-tracking reference machine (R3) applying the operand rules of the statement",
          "Each output is replayed through the kind-tracking reference machine R3 and every typed opcode's operands are checked against the rules in the statement. The bounded-depth enumeration clause of the quantifier is replaced by seeded search plus exhaustive scripts of <= 2 bytes (thorough).", "DESIGN.md §5 C03", ""),
  "C04": ("exploration", SIM + "seeded search incl. unsafe mutators (the generator's own byte-rewriting fault injectors) at high rates, plus argument sweeps placing integer width/sign edge images at every offset of every opcode's argument window; oracle = reference lexer (R1) with argument grammars and domains",
          "Outputs under every configuration incl. unsafe rewrites are decoded by the reference lexer R1 (grammar + domain of every argument, single trailing STOP).", "DESIGN.md §5 C04", ""),
@@ -38,7 +38,7 @@ CHECKS = {
          "Rate extremes are checked (a) in situ with Spy-wrapped real mutators inside seeded runs and (b) by enumerating fault points of the entropy reader for direct calls.", "DESIGN.md §5 C15", ""),
  "C16": ("fault_enumeration", SIM + "value grid x entropy fault points for direct calls of every Mutator method, plus contract checks on every Spy record of seeded simulated runs",
          "Each firing of a mutator, in situ or in a direct call on boundary values and exhausted/hostile entropy, is checked against the documented contract; panics are caught.", "DESIGN.md §5 C16", ""),
- "C18": ("fault_enumeration", SIM + "end-of-stream / short-read fault enumeration on the entropy seam: every EntropySource method x argument grid x ALL fuzzer scripts of length <= 2, sampled longer scripts at every cut, and a PRNG-side boundary hunt (billions of draws over spans around 2^32 and seeded spans in every magnitude class)",
+ "C18": ("fault_enumeration", SIM + "end-of-stream / short-read fault enumeration on the entropy seam: every EntropySource method x argument grid x ALL fuzzer scripts of length <= 2, sampled longer scripts at every cut, and a PRNG-side boundary hunt (billions of draws over spans around 2^32 and seeded spans in every magnitude class) and an extreme-word hunt (the ChaCha8 stream is scanned for all-ones/zero/sign-boundary words and every bounded method is executed on a generator positioned exactly there)",
          "The adapters' range contracts and fixed fallbacks are enumerated over all short scripts and sampled beyond.", "DESIGN.md §5 C18", "gen_bytes(usize::MAX) excluded: allocation failure aborts."),
  "C07": ("exploration", SIM + "seeded baton scheduler over real OS threads (one runs at a time, hand-over at every emission step; policies bursty/uniform/round-robin/PCT-style), twin tasks under simulator-chosen memo hash keys, colocated tasks per worker, clock-jump faults through an LD_PRELOAD clock seam, plus the same scenario batch in fresh processes; oracle = byte equality with the task run alone",
          "Interleavings of concurrent generator instances, hash-map seeds and task placement are chosen by a seeded scheduler and are exactly replayable from the recorded schedule string; separate processes are sampled, not controlled.", "DESIGN.md §5 C07", "rayon scheduling inside the CLI, ASLR and the seeds of pointer-keyed sets are varied but not chosen."),
